@@ -27,17 +27,34 @@ var c11UndefinedOnly = ExcTable{
 
 func c11UndefinedClass(p *Prog) *RuleResult {
 	r := NewRule("C11/R3 undefined-class", "wherever the ported exports/imports algorithm branches on the status 'undefined', the branch is taken for both pjStatusUndefined and pjStatusUndefinedNoConditionsMatch (Node has one 'undefined'), except at the reviewed top-level sites")
-	pk := p.ByPath[modPath+"/internal/resolver"]
-	if !r.Anchor("package resolver", pk != nil) {
+	helperSeen, ok := checkEnumClass(p, r, "/internal/resolver", "pjStatus", "pjStatusUndefined", "pjStatusUndefinedNoConditionsMatch", c11UndefinedOnly,
+		"the status is compared with pjStatusUndefined alone: a condition object with no applicable key (pjStatusUndefinedNoConditionsMatch) is 'undefined' in Node's algorithm too and must take the same branch (use isUndefined()); otherwise a later fallback or condition that Node would use is never tried", "isUndefined")
+	if !ok {
 		return r
 	}
-	consts := constsOfType(pk.Types, "pjStatus")
-	a, okA := consts["pjStatusUndefined"]
-	bb, okB := consts["pjStatusUndefinedNoConditionsMatch"]
-	if !r.Anchor("pjStatusUndefined / pjStatusUndefinedNoConditionsMatch", okA && okB) {
-		return r
+	r.Anchor("pjStatus.isUndefined covers both statuses", helperSeen)
+	r.StaleCheck(c11UndefinedOnly)
+	r.Floor(4)
+	return r
+}
+
+// checkEnumClass: two constants A and B of an enum form one class for the purpose of some decision;
+// every equality branch on A must be shared with B (the edge taken for == A and the edge taken for
+// == B lead to the same block, with the B test directly adjacent), unless the site is in exc.
+// Returns whether a function named helper was seen to cover both.
+func checkEnumClass(p *Prog, r *RuleResult, pkgSuffix, typeName, aName, bName string, exc ExcTable, failMsg, helper string) (bool, bool) {
+	pk := p.ByPath[modPath+pkgSuffix]
+	if !r.Anchor("package "+pkgSuffix, pk != nil) {
+		return false, false
 	}
-	isStatus := func(v ssa.Value) bool { return namedTypeName(v.Type()) == "resolver.pjStatus" }
+	consts := constsOfType(pk.Types, typeName)
+	a, okA := consts[aName]
+	bb, okB := consts[bName]
+	if !r.Anchor(aName+" / "+bName, okA && okB) {
+		return false, false
+	}
+	statusType := shortPkg(modPath+pkgSuffix) + "." + typeName
+	isStatus := func(v ssa.Value) bool { return namedTypeName(v.Type()) == statusType }
 	// target of the edge taken when v == c at an If whose condition is EQL/NEQ(v, c)
 	eqTarget := func(ifi *ssa.If, bo *ssa.BinOp) *ssa.BasicBlock {
 		if bo.Op == token.EQL {
@@ -53,7 +70,7 @@ func c11UndefinedClass(p *Prog) *RuleResult {
 	}
 	var fns []*ssa.Function
 	for _, fn := range p.ModuleFuncs() {
-		if pkgPathOf(fn) == modPath+"/internal/resolver" {
+		if pkgPathOf(fn) == modPath+pkgSuffix {
 			fns = append(fns, fn)
 		}
 	}
@@ -131,20 +148,17 @@ func c11UndefinedClass(p *Prog) *RuleResult {
 				}
 			}
 			if alike {
-				if fn.Name() == "isUndefined" {
+				if fn.Name() == helper {
 					helperSeen = true
 				}
 				r.OK(key, true, "the same branch is taken for pjStatusUndefinedNoConditionsMatch")
 				continue
 			}
-			if r.CheckExc(c11UndefinedOnly, key) {
+			if r.CheckExc(exc, key) {
 				continue
 			}
-			r.Fail(key, p.Pos(c.bo.Pos()), "the status is compared with pjStatusUndefined alone: a condition object with no applicable key (pjStatusUndefinedNoConditionsMatch) is 'undefined' in Node's algorithm too and must take the same branch (use isUndefined()); otherwise a later fallback or condition that Node would use is never tried")
+			r.Fail(key, p.Pos(c.bo.Pos()), failMsg)
 		}
 	}
-	r.Anchor("pjStatus.isUndefined covers both statuses", helperSeen)
-	r.StaleCheck(c11UndefinedOnly)
-	r.Floor(4)
-	return r
+	return helperSeen, true
 }
